@@ -7,6 +7,7 @@ import (
 	"io/ioutil"
 	"os"
 	"path/filepath"
+	"sort"
 
 	"verif/vh"
 )
@@ -240,7 +241,7 @@ func runScenarios() {
 			var miss []string
 			res := "same"
 			if !covers(got, want, "", &miss) {
-				res = "other:" + fmt.Sprint(miss)
+				res = "other:" + fmt.Sprint(sortedUnique(miss))
 			}
 			return map[string]string{"doc": res}
 		}
@@ -249,7 +250,7 @@ func runScenarios() {
 				var miss []string
 				res := "same"
 				if !covers(got, want, "", &miss) {
-					res = "other:" + fmt.Sprint(miss)
+					res = "other:" + fmt.Sprint(sortedUnique(miss))
 				}
 				out := map[string]string{"doc": res}
 				if m, ok := got.(map[string]interface{}); ok {
@@ -280,7 +281,18 @@ func dirObs(d string, files interface{}) string {
 	}
 	var miss []string
 	if !covers(files, orig, "", &miss) {
-		return "other:" + fmt.Sprint(miss)
+		return "other:" + fmt.Sprint(sortedUnique(miss))
 	}
 	return "same"
+}
+
+func sortedUnique(xs []string) []string {
+	sort.Strings(xs)
+	out := xs[:0]
+	for i, x := range xs {
+		if i == 0 || x != xs[i-1] {
+			out = append(out, x)
+		}
+	}
+	return out
 }
